@@ -85,6 +85,74 @@ pub trait Visitable : GraphBase {
 }
 //@ end
 
+//@ item src/visit/mod.rs | - | trait NodeIndexable
+    /// The graph's `NodeId`s map to indices
+    pub trait NodeIndexable : GraphBase {
+        /*+*/
+        /// a is a node of the graph
+        spec fn is_nid(&self, a: Self::NodeId) -> bool;
+        spec fn nbound(&self) -> usize;
+        spec fn ix_of(&self, a: Self::NodeId) -> usize;
+        /// distinct nodes have distinct indices
+        proof fn ix_inj_law(&self, a: Self::NodeId, b: Self::NodeId)
+            requires self.is_nid(a), self.is_nid(b), self.ix_of(a) == self.ix_of(b)
+            ensures a == b;
+        /*-*/
+        /// Return an upper bound of the node indices in the graph
+        /// (suitable for the size of a bitmap).
+        fn node_bound(self: &Self) -> (r: usize)
+            /*+*/ensures r == self.nbound()/*-*/;
+        /// Convert `a` to an integer index.
+        #[track_caller]
+        fn to_index(self: &Self, a: Self::NodeId) -> (r: usize)
+            /*+*/ensures r == self.ix_of(a), self.is_nid(a) ==> r < self.nbound()   // [to_index_below_node_bound]
+            /*-*/;
+        /// Convert `i` to a node index. `i` must be a valid value in the graph.
+        #[track_caller]
+        fn from_index(self: &Self, i: usize) -> (r: Self::NodeId)
+            /*+*/ensures forall|a: Self::NodeId| self.is_nid(a) && self.ix_of(a) == i ==> r == a   // [from_index_inverse_of_to_index]
+            /*-*/;
+    }
+//@ end
+
+//@ item src/visit/mod.rs | - | trait NodeCount
+/// A graph with a known node count.
+pub trait NodeCount : GraphBase {
+    /*+*/spec fn ncount(&self) -> usize;/*-*/
+    fn node_count(self: &Self) -> (r: usize)
+        /*+*/ensures r == self.ncount()/*-*/;
+}
+//@ end
+
+//@ item src/visit/mod.rs | - | trait NodeCompactIndexable
+/// The graph's `NodeId`s map to indices, in a range without holes.
+///
+/// The graph's node identifiers correspond to exactly the indices
+/// `0..self.node_bound()`.
+pub trait NodeCompactIndexable : NodeIndexable + NodeCount {
+    /*+*/
+    /// exactly 0..node_bound: every index below the bound is a node's index, and there are node_bound nodes
+    spec fn node_at(&self, i: usize) -> Self::NodeId;
+    /// the graph's representation invariant, as far as the law needs it
+    spec fn compact_inv(&self) -> bool;
+    proof fn compact_law(&self)
+        requires self.compact_inv()
+        ensures self.ncount() == self.nbound(),
+            forall|i: usize| i < self.nbound() ==> self.is_nid(#[trigger] self.node_at(i)) && self.ix_of(self.node_at(i)) == i;
+    /*-*/
+}
+//@ end
+
+//@ item src/visit/mod.rs | - | trait EdgeCount
+/// A graph with a known edge count.
+pub trait EdgeCount : GraphBase {
+    /*+*/spec fn ecount(&self) -> usize;/*-*/
+    /// Return the number of edges in the graph.
+    fn edge_count(self: &Self) -> (r: usize)
+        /*+*/ensures r == self.ecount()/*-*/;
+}
+//@ end
+
 //@ item src/visit/mod.rs | - | trait IntoNodeIdentifiers
 /// Access to the sequence of the graph's `NodeId`s.
 pub trait IntoNodeIdentifiers : GraphRef {
@@ -109,10 +177,13 @@ pub trait GetAdjacencyMatrix : GraphBase {
     /// nodes for which adjacency may be queried
     spec fn adj_node(&self, a: Self::NodeId) -> bool;
     /// m is an adjacency matrix of this graph in its current state
-    spec fn is_matrix(&self, m: &Self::AdjMatrix) -> bool/*-*/;
+    spec fn is_matrix(&self, m: &Self::AdjMatrix) -> bool;
+    /// the graph is well formed and its matrix fits the address space (node_bound^2 <= usize::MAX)
+    spec fn adj_pre(&self) -> bool/*-*/;
     /// Create the adjacency matrix
     fn adjacency_matrix(self: &Self) -> (m: Self::AdjMatrix)
-        /*+*/ensures self.is_matrix(&m)/*-*/;
+        /*+*/requires self.adj_pre()
+        ensures self.is_matrix(&m)/*-*/;   // [adjacency_matrix_is_matrix]
     /// Return true if there is an edge from `a` to `b`, false otherwise.
     ///
     /// Computes in O(1) time.
